@@ -86,6 +86,21 @@ class _Canon(ast.NodeTransformer):
                     node.left, node.comparators = r, [l]
         return node
 
+    def visit_UnaryOp(self, node):
+        self.generic_visit(node)
+        # not (a == b) -> a != b ; not (a < b) -> b <= a ; not not x is left alone
+        if isinstance(node.op, ast.Not) and isinstance(node.operand, ast.Compare) and len(node.operand.ops) == 1:
+            c = node.operand
+            op, l, r = c.ops[0], c.left, c.comparators[0]
+            flip = {ast.Eq: ast.NotEq, ast.NotEq: ast.Eq, ast.In: ast.NotIn, ast.NotIn: ast.In, ast.Is: ast.IsNot, ast.IsNot: ast.Is}
+            if type(op) in flip:
+                return ast.copy_location(ast.Compare(left=l, ops=[flip[type(op)]()], comparators=[r]), node)
+            if isinstance(op, ast.Lt):
+                return ast.copy_location(ast.Compare(left=r, ops=[ast.LtE()], comparators=[l]), node)
+            if isinstance(op, ast.LtE):
+                return ast.copy_location(ast.Compare(left=r, ops=[ast.Lt()], comparators=[l]), node)
+        return node
+
     def visit_Call(self, node):
         self.generic_visit(node)
         # dict(a=x, **m)  ->  {'a': x, **m}
@@ -136,6 +151,16 @@ class _Canon(ast.NodeTransformer):
                 rest = s.orelse
                 s.orelse = []
                 stmts = stmts[:i + 1] + rest + stmts[i + 1:]
+                nxt = stmts[i + 1] if i + 1 < len(stmts) else None
+            # if c: return True ; return False   ->   return c        (and the negated form)
+            if (isinstance(s, ast.If) and not s.orelse and len(s.body) == 1 and isinstance(s.body[0], ast.Return)
+                    and isinstance(s.body[0].value, ast.Constant) and isinstance(s.body[0].value.value, bool)
+                    and isinstance(nxt, ast.Return) and isinstance(nxt.value, ast.Constant) and isinstance(nxt.value.value, bool)
+                    and nxt.value.value is not s.body[0].value.value):
+                v = s.test if s.body[0].value.value else ast.UnaryOp(op=ast.Not(), operand=s.test)
+                out.append(ast.copy_location(ast.Return(value=v), s))
+                i += 2
+                continue
             out.append(s)
             i += 1
         return out
@@ -285,6 +310,42 @@ class _ForwardSubst:
         return state['done']
 
 
+class _StmtIfExp:
+    """x = A if c else B   ->   if c: x = A  else: x = B          (statement level only)
+    return A if c else B   ->   if c: return A  else: return B"""
+
+    def run(self, tree):
+        self._blocks(tree)
+        return tree
+
+    def _blocks(self, node):
+        for f in ('body', 'orelse', 'finalbody'):
+            b = getattr(node, f, None)
+            if isinstance(b, list) and b and isinstance(b[0], ast.stmt):
+                out = []
+                for st in b:
+                    self._blocks(st)
+                    out.append(self._stmt(st))
+                setattr(node, f, out)
+        if isinstance(node, ast.Try):
+            for h in node.handlers:
+                self._blocks(h)
+
+    def _stmt(self, st):
+        if isinstance(st, ast.Assign) and isinstance(st.value, ast.IfExp) and len(st.targets) == 1:
+            import copy
+            e = st.value
+            a = ast.copy_location(ast.Assign(targets=st.targets, value=e.body), st)
+            b = ast.copy_location(ast.Assign(targets=[copy.deepcopy(t) for t in st.targets], value=e.orelse), st)
+            return ast.copy_location(ast.If(test=e.test, body=[self._stmt(a)], orelse=[self._stmt(b)]), st)
+        if isinstance(st, ast.Return) and isinstance(st.value, ast.IfExp):
+            e = st.value
+            a = ast.copy_location(ast.Return(value=e.body), st)
+            b = ast.copy_location(ast.Return(value=e.orelse), st)
+            return ast.copy_location(ast.If(test=e.test, body=[self._stmt(a)], orelse=[self._stmt(b)]), st)
+        return st
+
+
 class _CompToLoop:
     """x = [e for t in it if c]        ->  x = [] ; for t in it: if c: x.append(e)
     x = {k: v for t in it if c}     ->  x = {} ; for t in it: if c: x[k] = v
@@ -384,6 +445,7 @@ def _as_load(t):
 
 def canonicalise(tree):
     if isinstance(tree, ast.Module):
+        tree = _StmtIfExp().run(tree)
         tree = _CompToLoop().run(tree)
         tree = _ForwardSubst().run(tree)
     tree = _Canon().visit(tree)
